@@ -1,6 +1,8 @@
 """C17  MUSIC / EV resolve exact sinusoids and expose the data-matrix spectrum."""
 import numpy as np
 
+import single
+
 import proto
 from common import rel
 
@@ -227,7 +229,10 @@ def _noisy(nrng, N, cplx):
     return np.cos(0.7 * n + 0.3) + 0.3 * nrng.standard_normal(N)
 
 
+KINDS["single"] = single.kind("C17")
+
 def gen(rng, nrng, tier):
+    yield from single.gen("C17", nrng, tier)
     n = 50 if tier == "quick" else 700
     for i in range(n):
         cplx = bool(i % 2)
